@@ -2,7 +2,8 @@
 
 Space: every value type code 0x00..0x1f  x  data = every combination of
   mantissa in MANT (signed 24-bit: 0, +-1, +-2, every 2^k, 2^k-1, -(2^k), -(2^k)+1, 0x7fffff, -0x800000, patterns;
-                    thorough adds every mantissa in [-2^12, 2^12) and every h<<12 for the signed 12-bit h)
+                    thorough adds, for the two complex types, every mantissa in [-2^12, 2^12) and every h<<12 for
+                    the signed 12-bit h)
   x radix 0..3 x unit 0..15,  plus the 32-bit boundary set BOUND (sign bit, package bytes, IEEE specials, ...).
 Each (type, data) is pushed through four real paths:
   fv     androguard.core.axml.format_value(type, data, lookup)
@@ -64,8 +65,8 @@ def mant_set(thorough):
 
 
 def space(ctx):
-    m = mant_set(ctx.thorough)
-    return {"type_codes": "0x00..0x1f (32)", "mantissas": len(m), "radix": 4, "unit": 16, "boundary_data": len(BOUND),
+    m = mant_set(False)
+    return {"type_codes": "0x00..0x1f (32)", "mantissas": len(m), "mantissas_complex_types": len(mant_set(ctx.thorough)), "radix": 4, "unit": 16, "boundary_data": len(BOUND),
             "data_per_type": len(m) * 64 + len(BOUND), "paths": ["fv", "ref", "table", "axml"],
             "tolerance": {"rel": 1e-6, "abs": 6e-7}}
 
@@ -83,7 +84,8 @@ def _data(ctx, shard):
     t, kind, r = shard
     if kind == "bound":
         return list(BOUND)
-    return [((m & 0xFFFFFF) << 8) | (r << 4) | u for m in mant_set(ctx.thorough) for u in range(16)]
+    wide = ctx.thorough and t in (0x05, 0x06)       # the wide mantissa set only where the mantissa has a meaning
+    return [((m & 0xFFFFFF) << 8) | (r << 4) | u for m in mant_set(wide) for u in range(16)]
 
 
 # ------------------------------------------------------------------------------------------------ paths
